@@ -40,7 +40,7 @@ var c11Pool = []c11Thread{
 	{Src: "3d6", Seed: 1}, {Src: "d20 + d4", Seed: 2}, {Src: "2a9 + 2c9 + f + b2", Seed: 3}, {Src: "[1,2,3,4].shuffle()", Seed: 4},
 	{Src: "[1,2].sum()"}, {Src: "[5].sum()"}, {Src: "[3,1,2].kh(2)"}, {Src: "[3,1,2] kl"}, {Src: "ceil(1.5) + abs(-2)"}, {Src: "{'a':1}.keys()"}, {Src: "dir([]).len()"}, {Src: "toStr(1.5) + repr('x')"},
 	{Src: "x = [1]; x.push(2); x.pop(); x"}, {Src: "x = {'k': 1}; x.k = 2; x.len()"},
-	{Src: "(1+2", Lang: 1}, {Src: "(1+2", Lang: 2}, {Src: "1 +* ", Lang: 0}, {Src: "'abc", Lang: 2}, {Src: "if ", Lang: 1},
+	{Src: "(1+2", Lang: 1}, {Src: "(1+2", Lang: 2}, {Src: "", Lang: 1}, {Src: "", Lang: 2}, {Src: "1 +* ", Lang: 0}, {Src: "'abc", Lang: 2}, {Src: "if ", Lang: 1},
 	{Src: "2d", Def: "d4+2"}, {Src: "d + d", Def: "6", Seed: 5}, {Src: "&c = 2d6; c + c", Seed: 6}, {Src: "&c = 2d6; c + c"}, {Src: "func g(){ d6 }; g() + g()", Seed: 7}, {Src: "func g(n){ n <= 0 ? 0 : 1 + g(n-1) }; g(3)"},
 	{Src: "`{d6}-{d6}`", Seed: 8}, {Src: "`{% x = 2; x %}{x}`"}, {Src: "i = 0; while i < 3 { i = i + 1 }; i"}, {Src: "1/0"}, {Src: "[1,2,3][5]"}, {Src: "^stA:5 B+1"}, {Src: "x = 5; load('x') + 1"}, {Src: "2d6k1 + 3d6q1", Seed: 9}, {Src: "d6优势"}, {Src: "'a' + 'b' == 'ab'"},
 }
@@ -77,6 +77,7 @@ func c11Enumerate(tier string, seed int64, emit func(string, any)) {
 type c11Obs struct {
 	err, ret, detail string
 	rolled           bool
+	held             error // the error object; rendered again after all VMs have finished
 }
 
 func c11NewVM(t c11Thread) *ds.Context {
@@ -93,6 +94,7 @@ func c11Body(t c11Thread) c11Obs {
 	var o c11Obs
 	if err := vm.Run(t.Src); err != nil {
 		o.err = err.Error()
+		o.held = err
 		return o
 	}
 	o.ret = drv.Canon(vm.Ret)
@@ -121,9 +123,16 @@ func c11Run(raw json.RawMessage) harn.Result {
 	for i, t := range c.Threads {
 		ds.VerifSeedGlobal(uint64(7 + i))
 		iso[i] = c11Body(t)
+		iso[i].held = nil
 	}
 	compare := func(i int, got c11Obs, where string) {
 		t := c.Threads[i]
+		if got.held != nil {
+			if late := got.held.Error(); late != got.err {
+				viol("C11:error-text-changes-after-the-fact", fmt.Sprintf("%s: VM %d (%q): error rendered %q inside its goroutine but %q after the other VMs had finished", where, i, t.Src, got.err, late))
+			}
+			got.held = nil
+		}
 		if t.Seed != 0 || !usesDice(t.Src) {
 			if got != iso[i] {
 				viol("C11:differs-from-isolated", fmt.Sprintf("%s: VM %d (%q seed %d) gives err=%q value=%s detail=%q; alone it gives err=%q value=%s detail=%q", where, i, t.Src, t.Seed, got.err, got.ret, got.detail, iso[i].err, iso[i].ret, iso[i].detail))
